@@ -20,6 +20,15 @@
 (*   how         : what differs between the two runs (fresh processes with *)
 (*                 different / equal string-hash seeds, second run in a    *)
 (*                 warm process, worker count, the seed) - attribution only*)
+(*   hist        : what run b's process tested BEFORE run b (a history of  *)
+(*                 the family of ReproHistory.tla: "self" = the same       *)
+(*                 schema, "twin" = another schema with the same operation *)
+(*                 labels and different parameter / body schemas); run a   *)
+(*                 is always the first run of a fresh process.  The        *)
+(*                 property names seed, schema and configuration only, so  *)
+(*                 NO clause below reads hist: a unit is constrained       *)
+(*                 whatever was tested earlier in the process              *)
+(*                 (HistoryFree of ReproHistory.tla, on real traffic).     *)
 (* Actions: Line consumes one position of both logs when they agree;       *)
 (* Finish closes a unit whose logs are exhausted and whose failure sets    *)
 (* agree; BagOp / BagFinish do the same per operation for the multiset     *)
@@ -29,7 +38,9 @@ EXTENDS Integers, Sequences, SequencesExt, FiniteSets, TLC, Json, IOUtils
 
 Data == JsonDeserialize(IOEnv.OBS_FILE)
 Logs == Data.logs          \* << [lines |-> << [op, m, u, h, b] >>, fails |-> << Int >>] >>
-Units == Data.units        \* << [a, b (indices into Logs), ph, same, wa, wb, stateless, limited, how] >>
+Units == Data.units        \* << [a, b (indices into Logs), ph, same, wa, wb, stateless, limited, how, hist] >>
+HistKinds == {"self", "twin"}
+WellFormed(u) == \A i \in 1..Len(u.hist) : u.hist[i] \in HistKinds
 
 Phases == {"examples", "coverage", "fuzzing", "stateful"}
 SeqConstrained(u) == u.same /\ u.wa = 1 /\ u.wb = 1                           \* one worker: same sequence, same failures
@@ -42,7 +53,7 @@ A == Logs[Units[t].a].lines
 B == Logs[Units[t].b].lines
 SetOf(s) == {s[i] : i \in 1..Len(s)}
 
-Init == t \in 1..Len(Units) /\ l = 1 /\ done = FALSE
+Init == t \in 1..Len(Units) /\ l = 1 /\ done = FALSE /\ Assert(WellFormed(Units[t]), <<"unit with an unknown history", t>>)
 
 (* ---- single worker: position-wise equality, then equal failure sets ---- *)
 Line == /\ ~done /\ SeqConstrained(Units[t])
